@@ -1518,6 +1518,14 @@ fn gen_c13(rng: &mut Rng, seed: u64, index: u64, long: bool) -> Scenario {
             g.perturb(0, n);
             match g.rng.below(10) {
                 0..=2 => g.ops.push(Op::ConsumeFf { h: 0 }),
+                3 => {
+                    // forced bytes reported while a rollback is about to remove what they follow:
+                    // after the rollback the forced bytes are those of the shorter history
+                    g.ops.push(if g.rng.chance(0.5) { Op::FfBytes { h: 0 } } else { Op::FfTokens { h: 0 } });
+                    let k = g.rng.range(1, 3);
+                    g.ops.push(Op::Rollback { h: 0, k });
+                    g.ops.push(Op::ChkFresh { h: 0 });
+                }
                 _ => {
                     let p = g.honest();
                     g.ops.push(Op::Commit {
